@@ -156,7 +156,9 @@ export class Reporter {
     fs.writeFileSync(path.join(VERIF, "evidence", this.property + ".json"), JSON.stringify(ev, null, 1));
     if (this.machinery.length > 0) {
       for (const m of this.machinery.slice(0, 20)) console.error("MACHINERY-ERROR: " + m);
-      return 2;
+      // violations found before the machinery gave up are still violations (a broken operation can keep a search from closing)
+      if (newViolations > 0) console.log(`${this.property} ${TIER}: ${newViolations} new violation key(s), then the machinery stopped (see MACHINERY-ERROR)`);
+      return newViolations > 0 ? 1 : 2;
     }
     console.log(`${this.property} ${TIER}: ${newViolations} new violation key(s), ${knownSeen.length} known finding(s) re-observed, ${wall.toFixed(1)}s`);
     return newViolations > 0 ? 1 : 0;
